@@ -100,6 +100,12 @@ def fault_atoms():
         [["on_disconnect_open"], ["close"], ["open"]],
         [["on_disconnect_open"], ["slow_conn", 1.0], ["close"], ["open"], ["status"]],
         [["open"]],                        # open_socket() while open
+        # the client is configured with a host name and the console comes back under that
+        # name at another address
+        [["dns_move", "10.0.0.77"], ["fin"]],
+        [["dns_move", "10.0.0.77"], ["rst"], ["net", "refuse", 0.0]],
+        [["fin"], ["adv", 0.5], ["dns_move", "10.0.0.78"], ["wfail", 1],
+         ["send", "zone_ctrl", "idem", "inline"]],
         # many faults of one kind over the life of one socket
         [["badcrc"], ["adv", 2.5]] * 12,
         [["garbage"], ["adv", 2.5], ["status"], ["undecodable_value"], ["adv", 2.5]] * 6,
@@ -698,7 +704,8 @@ def run_case(case):
     async def tail(w, run):
         await recovery_tail(gen, w, run, out)
 
-    run = S.run_script(gen, ops, tail=tail)
+    run = S.run_script(gen, ops, tail=tail,
+                       host="airtouch.lan" if any(o[0] == "dns_move" for o in ops) else None)
     viol, obs = judge(gen, run, out)
     for x in viol:
         x["log"] = H.log_slice(run.log, 45)
